@@ -20,7 +20,9 @@ Record view := mkView {
   v_sets : list (Z * Z * list Z);       (* oracle sets: nonce, height, confirming external ids *)
   v_slashed_set : Z;
   v_batches : list (Z * Z * list Z);    (* batch block index: id, block, confirming external ids *)
-  v_slashed_batch : Z }.
+  v_slashed_batch : Z;
+  v_calls : list (Z * Z * list Z);      (* outgoing bridge calls: nonce, block height, confirming external ids *)
+  v_slashed_call : Z }.
 
 Record universe := mkU { u_accs : list Z; u_orcs : list Z; u_exts : list Z; u_vals : list Z }.
 
@@ -39,7 +41,8 @@ Definition view_of (U : universe) (s : state) : view :=
             (filter (fun u => (u_orc u =? a) && (u_val u =? v)) (ubds s))) (u_vals U)) (u_orcs U))
     (map (bal_o s) (u_orcs U)) (map (bal_d s) (u_orcs U))
     (map (view_obj U) (sets s)) (slashed_set s)
-    (map (view_obj U) (batches s)) (slashed_batch_block s).
+    (map (view_obj U) (batches s)) (slashed_batch_block s)
+    (map (view_obj U) (calls s)) (slashed_call s).
 
 Fixpoint list_eqb {A} (eqb : A -> A -> bool) (l1 l2 : list A) : bool :=
   match l1, l2 with
@@ -71,6 +74,8 @@ Definition view_diff (a b : view) : Z :=
   else if negb (v_slashed_set a =? v_slashed_set b) then 11
   else if negb (list_eqb objv_eqb (v_batches a) (v_batches b)) then 12
   else if negb (v_slashed_batch a =? v_slashed_batch b) then 13
+  else if negb (list_eqb objv_eqb (v_calls a) (v_calls b)) then 14
+  else if negb (v_slashed_call a =? v_slashed_call b) then 15
   else 0.
 
 (* the harness prints, per operation, only what changed in the projection *)
@@ -89,7 +94,10 @@ Inductive vdelta :=
 | DSlashedSet (z : Z)
 | DBatch (x : Z * Z * list Z)
 | DBatches (l : list (Z * Z * list Z))
-| DSlashedBat (z : Z).
+| DSlashedBat (z : Z)
+| DCall (x : Z * Z * list Z)
+| DCalls (l : list (Z * Z * list Z))
+| DSlashedCall (z : Z).
 
 Fixpoint insert_rec (r : oracle) (l : list oracle) : list oracle :=
   match l with
@@ -113,21 +121,24 @@ Fixpoint put_obj (x : Z * Z * list Z) (l : list (Z * Z * list Z)) : list (Z * Z 
 
 Definition patch1 (v : view) (d : vdelta) : view :=
   match d with
-  | DRec a r => mkView (patch_rec a r (v_recs v)) (v_byb v) (v_bye v) (v_prop v) (v_power v) (v_deleg v) (v_ubds v) (v_balo v) (v_bald v) (v_sets v) (v_slashed_set v) (v_batches v) (v_slashed_batch v)
-  | DByB l => mkView (v_recs v) l (v_bye v) (v_prop v) (v_power v) (v_deleg v) (v_ubds v) (v_balo v) (v_bald v) (v_sets v) (v_slashed_set v) (v_batches v) (v_slashed_batch v)
-  | DByE l => mkView (v_recs v) (v_byb v) l (v_prop v) (v_power v) (v_deleg v) (v_ubds v) (v_balo v) (v_bald v) (v_sets v) (v_slashed_set v) (v_batches v) (v_slashed_batch v)
-  | DProp l => mkView (v_recs v) (v_byb v) (v_bye v) l (v_power v) (v_deleg v) (v_ubds v) (v_balo v) (v_bald v) (v_sets v) (v_slashed_set v) (v_batches v) (v_slashed_batch v)
-  | DPower z => mkView (v_recs v) (v_byb v) (v_bye v) (v_prop v) z (v_deleg v) (v_ubds v) (v_balo v) (v_bald v) (v_sets v) (v_slashed_set v) (v_batches v) (v_slashed_batch v)
-  | DDeleg l => mkView (v_recs v) (v_byb v) (v_bye v) (v_prop v) (v_power v) l (v_ubds v) (v_balo v) (v_bald v) (v_sets v) (v_slashed_set v) (v_batches v) (v_slashed_batch v)
-  | DUbds l => mkView (v_recs v) (v_byb v) (v_bye v) (v_prop v) (v_power v) (v_deleg v) l (v_balo v) (v_bald v) (v_sets v) (v_slashed_set v) (v_batches v) (v_slashed_batch v)
-  | DBalO i z => mkView (v_recs v) (v_byb v) (v_bye v) (v_prop v) (v_power v) (v_deleg v) (v_ubds v) (upd_nth i z (v_balo v)) (v_bald v) (v_sets v) (v_slashed_set v) (v_batches v) (v_slashed_batch v)
-  | DBalD i z => mkView (v_recs v) (v_byb v) (v_bye v) (v_prop v) (v_power v) (v_deleg v) (v_ubds v) (v_balo v) (upd_nth i z (v_bald v)) (v_sets v) (v_slashed_set v) (v_batches v) (v_slashed_batch v)
-  | DSet x => mkView (v_recs v) (v_byb v) (v_bye v) (v_prop v) (v_power v) (v_deleg v) (v_ubds v) (v_balo v) (v_bald v) (put_obj x (v_sets v)) (v_slashed_set v) (v_batches v) (v_slashed_batch v)
-  | DSets l => mkView (v_recs v) (v_byb v) (v_bye v) (v_prop v) (v_power v) (v_deleg v) (v_ubds v) (v_balo v) (v_bald v) l (v_slashed_set v) (v_batches v) (v_slashed_batch v)
-  | DSlashedSet z => mkView (v_recs v) (v_byb v) (v_bye v) (v_prop v) (v_power v) (v_deleg v) (v_ubds v) (v_balo v) (v_bald v) (v_sets v) z (v_batches v) (v_slashed_batch v)
-  | DBatch x => mkView (v_recs v) (v_byb v) (v_bye v) (v_prop v) (v_power v) (v_deleg v) (v_ubds v) (v_balo v) (v_bald v) (v_sets v) (v_slashed_set v) (put_obj x (v_batches v)) (v_slashed_batch v)
-  | DBatches l => mkView (v_recs v) (v_byb v) (v_bye v) (v_prop v) (v_power v) (v_deleg v) (v_ubds v) (v_balo v) (v_bald v) (v_sets v) (v_slashed_set v) l (v_slashed_batch v)
-  | DSlashedBat z => mkView (v_recs v) (v_byb v) (v_bye v) (v_prop v) (v_power v) (v_deleg v) (v_ubds v) (v_balo v) (v_bald v) (v_sets v) (v_slashed_set v) (v_batches v) z
+  | DRec a r => mkView (patch_rec a r (v_recs v)) (v_byb v) (v_bye v) (v_prop v) (v_power v) (v_deleg v) (v_ubds v) (v_balo v) (v_bald v) (v_sets v) (v_slashed_set v) (v_batches v) (v_slashed_batch v) (v_calls v) (v_slashed_call v)
+  | DByB l => mkView (v_recs v) l (v_bye v) (v_prop v) (v_power v) (v_deleg v) (v_ubds v) (v_balo v) (v_bald v) (v_sets v) (v_slashed_set v) (v_batches v) (v_slashed_batch v) (v_calls v) (v_slashed_call v)
+  | DByE l => mkView (v_recs v) (v_byb v) l (v_prop v) (v_power v) (v_deleg v) (v_ubds v) (v_balo v) (v_bald v) (v_sets v) (v_slashed_set v) (v_batches v) (v_slashed_batch v) (v_calls v) (v_slashed_call v)
+  | DProp l => mkView (v_recs v) (v_byb v) (v_bye v) l (v_power v) (v_deleg v) (v_ubds v) (v_balo v) (v_bald v) (v_sets v) (v_slashed_set v) (v_batches v) (v_slashed_batch v) (v_calls v) (v_slashed_call v)
+  | DPower z => mkView (v_recs v) (v_byb v) (v_bye v) (v_prop v) z (v_deleg v) (v_ubds v) (v_balo v) (v_bald v) (v_sets v) (v_slashed_set v) (v_batches v) (v_slashed_batch v) (v_calls v) (v_slashed_call v)
+  | DDeleg l => mkView (v_recs v) (v_byb v) (v_bye v) (v_prop v) (v_power v) l (v_ubds v) (v_balo v) (v_bald v) (v_sets v) (v_slashed_set v) (v_batches v) (v_slashed_batch v) (v_calls v) (v_slashed_call v)
+  | DUbds l => mkView (v_recs v) (v_byb v) (v_bye v) (v_prop v) (v_power v) (v_deleg v) l (v_balo v) (v_bald v) (v_sets v) (v_slashed_set v) (v_batches v) (v_slashed_batch v) (v_calls v) (v_slashed_call v)
+  | DBalO i z => mkView (v_recs v) (v_byb v) (v_bye v) (v_prop v) (v_power v) (v_deleg v) (v_ubds v) (upd_nth i z (v_balo v)) (v_bald v) (v_sets v) (v_slashed_set v) (v_batches v) (v_slashed_batch v) (v_calls v) (v_slashed_call v)
+  | DBalD i z => mkView (v_recs v) (v_byb v) (v_bye v) (v_prop v) (v_power v) (v_deleg v) (v_ubds v) (v_balo v) (upd_nth i z (v_bald v)) (v_sets v) (v_slashed_set v) (v_batches v) (v_slashed_batch v) (v_calls v) (v_slashed_call v)
+  | DSet x => mkView (v_recs v) (v_byb v) (v_bye v) (v_prop v) (v_power v) (v_deleg v) (v_ubds v) (v_balo v) (v_bald v) (put_obj x (v_sets v)) (v_slashed_set v) (v_batches v) (v_slashed_batch v) (v_calls v) (v_slashed_call v)
+  | DSets l => mkView (v_recs v) (v_byb v) (v_bye v) (v_prop v) (v_power v) (v_deleg v) (v_ubds v) (v_balo v) (v_bald v) l (v_slashed_set v) (v_batches v) (v_slashed_batch v) (v_calls v) (v_slashed_call v)
+  | DSlashedSet z => mkView (v_recs v) (v_byb v) (v_bye v) (v_prop v) (v_power v) (v_deleg v) (v_ubds v) (v_balo v) (v_bald v) (v_sets v) z (v_batches v) (v_slashed_batch v) (v_calls v) (v_slashed_call v)
+  | DBatch x => mkView (v_recs v) (v_byb v) (v_bye v) (v_prop v) (v_power v) (v_deleg v) (v_ubds v) (v_balo v) (v_bald v) (v_sets v) (v_slashed_set v) (put_obj x (v_batches v)) (v_slashed_batch v) (v_calls v) (v_slashed_call v)
+  | DBatches l => mkView (v_recs v) (v_byb v) (v_bye v) (v_prop v) (v_power v) (v_deleg v) (v_ubds v) (v_balo v) (v_bald v) (v_sets v) (v_slashed_set v) l (v_slashed_batch v) (v_calls v) (v_slashed_call v)
+  | DSlashedBat z => mkView (v_recs v) (v_byb v) (v_bye v) (v_prop v) (v_power v) (v_deleg v) (v_ubds v) (v_balo v) (v_bald v) (v_sets v) (v_slashed_set v) (v_batches v) z (v_calls v) (v_slashed_call v)
+  | DCall x => mkView (v_recs v) (v_byb v) (v_bye v) (v_prop v) (v_power v) (v_deleg v) (v_ubds v) (v_balo v) (v_bald v) (v_sets v) (v_slashed_set v) (v_batches v) (v_slashed_batch v) (put_obj x (v_calls v)) (v_slashed_call v)
+  | DCalls l => mkView (v_recs v) (v_byb v) (v_bye v) (v_prop v) (v_power v) (v_deleg v) (v_ubds v) (v_balo v) (v_bald v) (v_sets v) (v_slashed_set v) (v_batches v) (v_slashed_batch v) l (v_slashed_call v)
+  | DSlashedCall z => mkView (v_recs v) (v_byb v) (v_bye v) (v_prop v) (v_power v) (v_deleg v) (v_ubds v) (v_balo v) (v_bald v) (v_sets v) (v_slashed_set v) (v_batches v) (v_slashed_batch v) (v_calls v) z
   end.
 Definition patch (v : view) (ds : list vdelta) : view := fold_left patch1 ds v.
 
